@@ -302,15 +302,18 @@ func (b *Bucket) DeleteBucket(key []byte) (err error) {
 	}
 
 	// Recursively delete all child buckets.
+	// Collect the names first: deleting a nested bucket modifies the node
+	// the cursor of ForEachBucket is iterating over.
 	child := b.Bucket(newKey)
-	err = child.ForEachBucket(func(k []byte) error {
+	var nested [][]byte
+	_ = child.ForEachBucket(func(k []byte) error {
+		nested = append(nested, cloneBytes(k))
+		return nil
+	})
+	for _, k := range nested {
 		if err := child.DeleteBucket(k); err != nil {
 			return fmt.Errorf("delete bucket: %s", err)
 		}
-		return nil
-	})
-	if err != nil {
-		return err
 	}
 
 	// Remove cached copy.
